@@ -461,3 +461,5 @@ def register(_reg, _mt, STD):  # noqa: ANN001
         _extend(pid_, [round10.rule_names_compared_exactly])
     _extend('C15', [unions.rule_c11_r2])
     _extend('C08', [round10.rule_unexpected_keys_only_formatted])
+    for pid_ in ('C05', 'C16', 'C19'):
+        _extend(pid_, [round10.rule_filled_fields_accepted_back])
